@@ -118,3 +118,73 @@ def selector_replay(clsname, mode):
 def run(factory, args, inputs):
     """Entry point of stand-alone replay files: rebuild the replay function and run it."""
     return globals()[factory](*args)(inputs)
+
+
+def _env():
+    return importlib.import_module("jsonpath.env").JSONPathEnvironment()
+
+
+def _operand(v):
+    v = real(v)
+    if isinstance(v, tuple) and v and v[0] == "<nodelist>":
+        nl = importlib.import_module("jsonpath.match").NodeList()
+        for m in v[1]:
+            nl.append(real(m) if not isinstance(m, dict) else make_match(m))
+        return nl
+    if isinstance(v, list) and len(v) == 2 and v[0] == "<nodelist>":
+        nl = importlib.import_module("jsonpath.match").NodeList()
+        for m in v[1]:
+            nl.append(make_match(m) if isinstance(m, dict) and m.get("<match>") else real(m))
+        return nl
+    return v
+
+
+def _outcome(fn, *args):
+    try:
+        return ("returns", fn(*args))
+    except Exception as e:  # noqa: BLE001
+        return ("raises", type(e).__name__)
+
+
+def env_replay(meth, specname):
+    def replay(inputs):
+        import specs.rfc9535_filter as fspec
+
+        l, r = _operand(inputs["left"]), _operand(inputs["right"])
+        got = _outcome(getattr(_env(), meth), l, r)
+        want = _outcome(getattr(fspec, specname), l, r)
+        if got != want:
+            return f"env.{meth}({l!r}, {r!r}) {got[0]} {got[1]!r} but RFC spec {specname} {want[0]} {want[1]!r}"
+        return None
+
+    return replay
+
+
+def env_replay1(meth, specname):
+    def replay(inputs):
+        import specs.rfc9535_filter as fspec
+
+        x = _operand(inputs["obj"])
+        got = _outcome(getattr(_env(), meth), x)
+        want = _outcome(getattr(fspec, specname), x)
+        if got != want:
+            return f"env.{meth}({x!r}) {got[0]} {got[1]!r} but RFC spec {specname} {want[0]} {want[1]!r}"
+        return None
+
+    return replay
+
+
+def compare_replay(op, specname):
+    def replay(inputs):
+        import specs.rfc9535_filter as fspec
+
+        l, r = _operand(inputs["left"]), _operand(inputs["right"])
+        if op == "=~":
+            return None  # re is opaque in the model: no concrete pattern to replay
+        got = _outcome(_env().compare, l, op, r)
+        want = _outcome(getattr(fspec, specname), l, op, r)
+        if got != want:
+            return f"env.compare({l!r}, {op!r}, {r!r}) {got[0]} {got[1]!r} but spec {specname} {want[0]} {want[1]!r}"
+        return None
+
+    return replay
